@@ -453,3 +453,61 @@ static void run_c15_churn(void)
     sim_count("c15.churn_rounds_finished_on_another_stream", (uint64_t)H.moved);
 }
 SIM_WORKLOAD("C15", "churn", run_c15_churn, 6)
+
+/* ================================================================ (d) cancel handled at pop */
+/* An unnamed ULT that has already run on one stream sits in a pool shared by several streams
+ * when a cancellation request arrives; whichever stream pops it next terminates and frees it.
+ * Its descriptor and stack must go to the memory pool of the stream that does the freeing
+ * (oracle: M-local-pool monitor; ledger at the end). */
+#define CP_MAX 6
+static struct {
+    wl_rt rt;
+    int n;
+    struct cpu {
+        ABT_thread self;
+        volatile int ready, go, ended, slices;
+    } U[CP_MAX];
+} CP;
+static void cp_fn(void *arg)
+{
+    struct cpu *u = (struct cpu *)arg;
+    ABT_OK(ABT_self_get_thread(&u->self));
+    u->ready = 1;
+    while (!u->go) {
+        u->slices++;
+        ABT_OK(ABT_thread_yield());
+    }
+    u->ended = 1;
+}
+static void run_c15_cancel_at_pop(void)
+{
+    memset(&CP, 0, sizeof CP);
+    wl_rt *rt = &CP.rt;
+    wl_rt_start(rt, WL_RT_NEED_SHARED | WL_RT_MIN2ES | WL_RT_NO_TOPO2);
+    CP.n = plan_range(1, CP_MAX);
+    sim_note("C15 cancel-at-pop units=%d ", CP.n);
+    for (int i = 0; i < CP.n; i++)
+        ABT_OK(ABT_thread_create(rt->pools[0], cp_fn, &CP.U[i], ABT_THREAD_ATTR_NULL, NULL)); /* unnamed */
+    long cancelled = 0;
+    for (int i = 0; i < CP.n; i++) {
+        struct cpu *u = &CP.U[i];
+        while (!u->ready)
+            ABT_OK(ABT_thread_yield());
+        /* let it change streams a few times */
+        int spins = (int)sim_rand_n(SIM_RS_CHAOS, 6);
+        for (int k = 0; k < spins; k++)
+            ABT_OK(ABT_thread_yield());
+        /* the unit is alive (it leaves its loop only after go): its handle is valid */
+        if (sim_rand_n(SIM_RS_CHAOS, 4)) {
+            ABT_OK(ABT_thread_cancel(u->self));
+            cancelled++;
+        }
+        u->go = 1;
+        sim_progress();
+    }
+    wl_rt_stop(rt); /* joins the streams: every unit has ended or was cancelled by then */
+    for (int i = 0; i < CP.n; i++)
+        SIM_CHECK(CP.U[i].ready, "once:not-exactly-once", "unit %d never ran", i);
+    sim_count("c15.cancel_requests_to_queued_unnamed_units", (uint64_t)cancelled);
+}
+SIM_WORKLOAD("C15", "cancel-at-pop", run_c15_cancel_at_pop, 4)
